@@ -246,4 +246,228 @@ theorem run_eq {w : Nat} (ops : List Op) : ∀ {a c}, Repr w a c → run w a ops
     simp only [run, Counters.run]
     rw [hs.2, ih hs.1]
 
+/-! ### a key with a lifetime: the lazy store refines the eagerly expiring counter array -/
+
+theorem view_none_of_slot_none {t : TState} (h : t.slot = none) : t.view = none := by
+  simp [TState.view, h]
+
+theorem tget_snd (t : TState) : (tget t).2 = t.view := by
+  unfold tget TState.view
+  cases t.slot with
+  | none => rfl
+  | some s => by_cases h : s.expired t.now <;> simp [h]
+
+theorem tget_now (t : TState) : (tget t).1.now = t.now := by
+  unfold tget
+  cases t.slot with
+  | none => rfl
+  | some s => by_cases h : s.expired t.now <;> simp [h]
+
+/-- after `_get` the stale entry is gone: the store holds exactly what the key logically holds -/
+theorem tget_slot (t : TState) : (tget t).1.slot = t.view := by
+  unfold tget TState.view
+  cases hs : t.slot with
+  | none => simp [hs]
+  | some s => by_cases h : s.expired t.now <;> simp [h, hs]
+
+theorem tget_view (t : TState) : (tget t).1.view = t.view := by
+  unfold tget TState.view
+  cases hs : t.slot with
+  | none => simp [hs]
+  | some s => by_cases h : s.expired t.now <;> simp [h, hs]
+
+theorem view_not_expired {t : TState} {sl : Slot} (h : t.view = some sl) : sl.expired t.now = false := by
+  unfold TState.view at h
+  cases hs : t.slot with
+  | none => simp [hs] at h
+  | some s =>
+    by_cases he : s.expired t.now
+    · simp [hs, he] at h
+    · simp [hs, he] at h; subst h; simpa using he
+
+theorem tset_now (t : TState) (a ttl : Nat) : (tset t a ttl).now = t.now := rfl
+
+/-- `_set` on a store without a stale entry: the new array is there, with the new deadline or the
+inherited one -/
+theorem tset_view (t : TState) (hp : t.slot = t.view) (a ttl : Nat) :
+    (tset t a ttl).view =
+      some ⟨a, if ttl ≠ 0 then some (t.now + ttl) else t.view.bind (·.dl)⟩ := by
+  by_cases httl : ttl = 0
+  · subst httl
+    cases hv : t.view with
+    | none =>
+      have : t.slot = none := by rw [hp, hv]
+      simp [tset, TState.view, this, Slot.expired]
+    | some sl =>
+      have hs : t.slot = some sl := by rw [hp, hv]
+      have hne := view_not_expired hv
+      have hne' : Slot.expired ⟨a, sl.dl⟩ t.now = false := by simpa [Slot.expired] using hne
+      simp [tset, TState.view, hs, hne, hne']
+  · have : ¬ (t.now + ttl ≤ t.now) := by omega
+    simp [tset, TState.view, httl, Slot.expired, this]
+
+/-- the store `t` represents the ideal timed counter array `s` at width `w` -/
+def TRepr (w : Nat) (t : TState) (s : Counters.TCounters) : Prop :=
+  t.now = s.now ∧
+  match t.view with
+  | none => s.live = false ∧ s.dl = none ∧ ∀ j, s.c j = 0
+  | some sl => s.live = true ∧ s.dl = sl.dl ∧ Repr w sl.a s.c
+
+theorem trepr_init (w now : Nat) : TRepr w ⟨now, none⟩ (Counters.fresh now) :=
+  ⟨rfl, by simp [TState.view, Counters.fresh, Counters.init]⟩
+
+/-- what `_get(key, default=Bitarray("0"))` hands out represents the ideal array -/
+theorem trepr_array {w t s} (h : TRepr w t s) : Repr w ((t.view.map (·.a)).getD 0) s.c := by
+  obtain ⟨_, hv⟩ := h
+  cases hvw : t.view with
+  | none => rw [hvw] at hv; intro j; simp [get_zero, hv.2.2 j]
+  | some sl => rw [hvw] at hv; simpa using hv.2.2
+
+theorem trepr_of_view {w : Nat} {t t' : TState} {s : Counters.TCounters} (h : TRepr w t s)
+    (hn : t'.now = t.now) (hv : t'.view = t.view) : TRepr w t' s := by
+  refine ⟨by rw [hn]; exact h.1, ?_⟩
+  rw [hv]; exact h.2
+
+theorem tstep_eq {w t s} (h : TRepr w t s) (op : TOp) :
+    TRepr w (tstep w t op).1 (Counters.tstep w s op).1 ∧ (tstep w t op).2 = (Counters.tstep w s op).2 := by
+  have hnow := h.1
+  have harr := trepr_array h
+  have hv := h.2
+  cases op with
+  | getBits idxs =>
+    have e1 : tstep w t (.getBits idxs) = ((tget t).1, getBits ((t.view.map (·.a)).getD 0) idxs w) := by
+      simp only [tstep, tget_snd]
+    rw [e1]
+    exact ⟨trepr_of_view h (tget_now t) (tget_view t), getBits_eq harr idxs⟩
+  | incrBits idxs by_ =>
+    have e1 : tstep w t (.incrBits idxs by_) =
+        (tset (tget t).1 (incrBits ((t.view.map (·.a)).getD 0) idxs w by_).1 0,
+          (incrBits ((t.view.map (·.a)).getD 0) idxs w by_).2) := by
+      simp only [tstep, tget_snd]
+    have e2 : Counters.tstep w s (.incrBits idxs by_) =
+        ({ s with c := (Counters.incrMany s.c w idxs by_).1, live := true }, (Counters.incrMany s.c w idxs by_).2) := rfl
+    rw [e1, e2]
+    have hi := incrBits_eq harr idxs by_
+    refine ⟨⟨by rw [tset_now, tget_now]; exact hnow, ?_⟩, hi.2⟩
+    rw [tset_view _ (by rw [tget_slot, tget_view])]
+    simp only [ne_eq, not_true_eq_false, if_false, tget_view]
+    refine ⟨by first | rfl | trivial, ?_, hi.1⟩
+    cases hvw : t.view with
+    | none => rw [hvw] at hv; simpa using hv.2.1
+    | some sl => rw [hvw] at hv; simpa using hv.2.1
+  | expire ttl =>
+    cases hvw : t.view with
+    | none =>
+      rw [hvw] at hv
+      have e1 : tstep w t (.expire ttl) = ((tget t).1, []) := by simp only [tstep, tget_snd, hvw]
+      have e2 : Counters.tstep w s (.expire ttl) = (s, []) := by simp [Counters.tstep, hv.1]
+      rw [e1, e2]
+      exact ⟨trepr_of_view h (tget_now t) (tget_view t), rfl⟩
+    | some sl =>
+      rw [hvw] at hv
+      have e1 : tstep w t (.expire ttl) = (tset (tget t).1 sl.a ttl, []) := by simp only [tstep, tget_snd, hvw]
+      rw [e1]
+      have hview := tset_view (tget t).1 (by rw [tget_slot, tget_view]) sl.a ttl
+      rw [tget_view, hvw, tget_now] at hview
+      by_cases httl : ttl = 0
+      · have e2 : Counters.tstep w s (.expire ttl) = (s, []) := by simp [Counters.tstep, httl]
+        rw [e2]
+        refine ⟨⟨by rw [tset_now, tget_now]; exact hnow, ?_⟩, rfl⟩
+        rw [hview]; simpa [httl] using hv
+      · have e2 : Counters.tstep w s (.expire ttl) = ({ s with dl := some (s.now + ttl) }, []) := by
+          simp [Counters.tstep, httl, hv.1]
+        rw [e2]
+        refine ⟨⟨by rw [tset_now, tget_now]; exact hnow, ?_⟩, rfl⟩
+        rw [hview]; simp [httl, hnow, hv.1, hv.2.2]
+  | delete =>
+    have e2 : Counters.tstep w s .delete = (Counters.fresh s.now, b2l s.live) := rfl
+    rw [e2]
+    cases hs : t.slot with
+    | none =>
+      have hvw := view_none_of_slot_none hs
+      rw [hvw] at hv
+      have e1 : tstep w t .delete = (t, b2l false) := by simp only [tstep, hs]
+      rw [e1, hv.1]
+      refine ⟨⟨hnow, ?_⟩, rfl⟩
+      rw [hvw]; simp [Counters.fresh, Counters.init]
+    | some sl =>
+      have e1 : tstep w t .delete = ({ t with slot := none }, b2l (!sl.expired t.now)) := by simp only [tstep, hs]
+      rw [e1]
+      refine ⟨⟨hnow, by simp [TState.view, Counters.fresh, Counters.init]⟩, ?_⟩
+      by_cases he : sl.expired t.now
+      · have hvw : t.view = none := by simp [TState.view, hs, he]
+        rw [hvw] at hv; simp [he, hv.1]
+      · have hvw : t.view = some sl := by simp [TState.view, hs, he]
+        rw [hvw] at hv; simp [he, hv.1]
+  | touch =>
+    have e1 : tstep w t .touch = ((tget t).1, b2l t.view.isSome) := by simp only [tstep, tget_snd]
+    have e2 : Counters.tstep w s .touch = (s, b2l s.live) := rfl
+    rw [e1, e2]
+    refine ⟨trepr_of_view h (tget_now t) (tget_view t), ?_⟩
+    cases hvw : t.view with
+    | none => rw [hvw] at hv; simp [hv.1]
+    | some sl => rw [hvw] at hv; simp [hv.1]
+  | adv dt =>
+    have e1 : tstep w t (.adv dt) = ({ t with now := t.now + dt }, []) := rfl
+    rw [e1]
+    cases hs : t.slot with
+    | none =>
+      have hvw := view_none_of_slot_none hs
+      rw [hvw] at hv
+      have e2 : Counters.tstep w s (.adv dt) = ({ s with now := s.now + dt }, []) := by
+        simp [Counters.tstep, hv.2.1]
+      rw [e2]
+      refine ⟨⟨by simp [hnow], ?_⟩, rfl⟩
+      simp only [TState.view]; exact hv
+    | some sl =>
+      by_cases he : sl.expired t.now
+      · -- already stale: the ideal array was reset when the deadline passed
+        have hvw : t.view = none := by simp [TState.view, hs, he]
+        rw [hvw] at hv
+        have e2 : Counters.tstep w s (.adv dt) = ({ s with now := s.now + dt }, []) := by
+          simp [Counters.tstep, hv.2.1]
+        rw [e2]
+        refine ⟨⟨by simp [hnow], ?_⟩, rfl⟩
+        have he' : sl.expired (t.now + dt) = true := by
+          unfold Slot.expired at he ⊢
+          cases hd : sl.dl with
+          | none => simp [hd] at he
+          | some d => simp [hd] at he ⊢; omega
+        simp only [TState.view, he', if_true]; exact hv
+      · have hvw : t.view = some sl := by simp [TState.view, hs, he]
+        rw [hvw] at hv
+        cases hd : sl.dl with
+        | none =>
+          have hsd : s.dl = none := by rw [hv.2.1, hd]
+          have e2 : Counters.tstep w s (.adv dt) = ({ s with now := s.now + dt }, []) := by
+            simp [Counters.tstep, hsd]
+          rw [e2]
+          refine ⟨⟨by simp [hnow], ?_⟩, rfl⟩
+          have he' : sl.expired (t.now + dt) = false := by simp [Slot.expired, hd]
+          simp only [TState.view, he']; exact hv
+        | some d =>
+          have hsd : s.dl = some d := by rw [hv.2.1, hd]
+          by_cases hreach : d ≤ s.now + dt
+          · have he' : sl.expired (t.now + dt) = true := by simp [Slot.expired, hd, hnow, hreach]
+            have e2 : Counters.tstep w s (.adv dt) = (Counters.fresh (s.now + dt), []) := by
+              simp [Counters.tstep, hsd, hreach]
+            rw [e2]
+            refine ⟨⟨by simp [hnow, Counters.fresh], ?_⟩, rfl⟩
+            simp [TState.view, he', Counters.fresh, Counters.init]
+          · have he' : sl.expired (t.now + dt) = false := by simp [Slot.expired, hd, hnow, hreach]
+            have e2 : Counters.tstep w s (.adv dt) = ({ s with now := s.now + dt }, []) := by
+              simp [Counters.tstep, hsd, hreach]
+            rw [e2]
+            refine ⟨⟨by simp [hnow], ?_⟩, rfl⟩
+            simp only [TState.view, he']; exact hv
+
+theorem trun_eq {w : Nat} (ops : List TOp) : ∀ {t s}, TRepr w t s → trun w t ops = Counters.trun w s ops := by
+  induction ops with
+  | nil => intros; rfl
+  | cons op rest ih =>
+    intro t s h
+    have hs := tstep_eq h op
+    simp only [trun, Counters.trun]
+    rw [hs.2, ih hs.1]
+
 end CashewsVerif.Bits
